@@ -31,6 +31,7 @@ type caseIn struct {
 	AllocEmpty bool          `json:"alloc_empty"` // empty lists/maps allocated non-nil
 	Stream     string        `json:"stream"`      // field | nested | lenb | full | random | excluded
 	Note       string        `json:"note"`        // which field / which boundary value
+	Raw        string        `json:"raw"`         // stream "raw" only: hex of the input bytes (val is null)
 }
 
 // decRes is the result of one decoder on one byte string.
